@@ -57,14 +57,15 @@ package bus
 //@   ensures[C16] forall k uint32 :: k != objectID ==> (at_unlock(has(s.objects, k)) <==> at_lock(has(s.objects, k))) && (at_unlock(has(s.boxes, k)) <==> at_lock(has(s.boxes, k)))
 //@   ensures[C16] err != nil ==> forall k uint32 :: (at_unlock(has(s.objects, k)) <==> at_lock(has(s.objects, k))) && (at_unlock(has(s.boxes, k)) <==> at_lock(has(s.boxes, k)))
 
+// (C04: a call addressed to an object the service does not hold still gets its one outcome, an error)
 //@ func (s *serviceImpl) Receive(m *net.Message, from Channel) (err error)
-//@   tags C16 C12
+//@   tags C16 C12 C04
 //@   requires !s.RWMutex.lockw && s.RWMutex.lockr == 0
 //@   requires m != nil && from != nil
 //@   modifies everything
 //@   ensures !s.RWMutex.lockw && s.RWMutex.lockr == 0
-//@   ensures[C16] !at_unlock(has(s.boxes, m.Header.Object)) ==> from.errsent == old(from.errsent) + 1
-//@   ensures[C16] at_unlock(has(s.boxes, m.Header.Object)) ==> from.errsent == old(from.errsent) && err == nil
+//@   ensures[C16,C04] !at_unlock(has(s.boxes, m.Header.Object)) ==> from.errsent == old(from.errsent) + 1
+//@   ensures[C16,C04] at_unlock(has(s.boxes, m.Header.Object)) ==> from.errsent == old(from.errsent) && err == nil
 
 //@ func (s *serviceImpl) Terminate() (err error)
 //@   tags C16
